@@ -1,5 +1,7 @@
 import SSVerif.Model.AcmodBuf
 import SSVerif.Model.AcmodFe
+import SSVerif.Model.AcmodWF
+import SSVerif.Model.DecRet
 import Driver.Util
 /-! driver sub-command `c07`: replays a decoder call pattern on the acmod / live-feature index model and prints the
     counters and the windows handed to the searches in the format of `harness/h_c07.c`.  Two ways of standing in for
@@ -71,6 +73,15 @@ def emitS (d : D) (x : SSVerif.AcmodFe.FS) : D × String :=
   let r := emit { d with fe := x.fe, pos := x.pos } x.st
   (r.1, showCalls x.calls ++ (if x.feBad then " FEBAD=1 " else " ") ++ r.2)
 
+/-- what the call returns and by how much `d->n_frame` grows, from the model of the C counters
+    (`Model/DecRet.lean`; C03's frame accounting) -/
+def showRv (r : St × Nat × Option Int) : String :=
+  (match r.2.2 with | some v => s!"rv={v}" | none => "rv=-") ++ s!" cnt={r.2.1} "
+
+def showEndRv (r : SSVerif.DecRet.Ret) : String := s!"rv={r.rv} cnt={r.cnt} "
+
+def withRv (rv : String) (r : D × String) : D × String := (r.1, rv ++ r.2)
+
 def step (d : D) (ws : List String) : D × String :=
   match ws with
   | ["init", w, c, f] =>
@@ -82,7 +93,10 @@ def step (d : D) (ws : List String) : D × String :=
   | ["start", c] =>
     match c.toNat? with
     | some c =>
-      emit { d with nS := 0, nA := 0, fe := SSVerif.FeBuf.start, pos := 0 } (startUtt { d.s with cmnFrames := c, cmnMoved := false })
+      -- `wf0`: the structural facts `WF0` (Boolean form, `Model/AcmodWF.lean`; `wf0b_iff` in `Props/C07Hist.lean`) on the
+      -- state the history so far has left behind, i.e. the "prior decoder state" of this utterance
+      let r := emit { d with nS := 0, nA := 0, fe := SSVerif.FeBuf.start, pos := 0 } (startUtt { d.s with cmnFrames := c, cmnMoved := false })
+      (r.1, r.2 ++ s!" wf0={if wf0b d.s then 1 else 0}")
     | none => (d, "bad-op")
   | ["cfg", a, b] =>
     match a.toNat?, b.toNat? with
@@ -91,23 +105,33 @@ def step (d : D) (ws : List String) : D × String :=
   | ["ps", ns, n] =>
     match n.toNat? with
     | some n =>
-      emitS d (SSVerif.AcmodFe.stepS d.cfg d.fix d.win noSkip ⟨d.s, d.fe, [], d.pos, false, []⟩ (.process (ns != "0") n)).1
+      -- the composed model computes the front-end responses; the value returned is the one the counter model
+      -- computes on the response-level call they amount to
+      let r := SSVerif.AcmodFe.stepS d.cfg d.fix d.win noSkip ⟨d.s, d.fe, [], d.pos, false, []⟩ (.process (ns != "0") n)
+      withRv (showRv (SSVerif.DecRet.stepRv d.fix d.win noSkip d.s r.2)) (emitS d r.1)
     | none => (d, "bad-op")
-  | ["ends"] => emitS d (SSVerif.AcmodFe.decEndS d.cfg d.fix d.win noSkip ⟨d.s, d.fe, [], d.pos, false, []⟩).1
+  | ["ends"] =>
+    let r := SSVerif.AcmodFe.decEndS d.cfg d.fix d.win noSkip ⟨d.s, d.fe, [], d.pos, false, []⟩
+    withRv (showEndRv (SSVerif.DecRet.decEndRv d.fix d.win noSkip d.s r.2)) (emitS d r.1)
   | ["p", ns, rs] =>
     match parseResps rs with
-    | some rs => emit d (SSVerif.AcmodBuf.step d.fix d.win noSkip d.s (.process (ns != "0") rs))
+    | some rs =>
+      withRv (showRv (SSVerif.DecRet.stepRv d.fix d.win noSkip d.s (.process (ns != "0") rs)))
+        (emit d (SSVerif.AcmodBuf.step d.fix d.win noSkip d.s (.process (ns != "0") rs)))
     | none => (d, "bad-op")
   | ["pfull", ns, rs] =>
     match parseFull rs with
-    | some rs => emit d (SSVerif.AcmodBuf.step d.fix d.win noSkip d.s (.processFull (ns != "0") rs))
+    | some rs =>
+      withRv (showRv (SSVerif.DecRet.stepRv d.fix d.win noSkip d.s (.processFull (ns != "0") rs)))
+        (emit d (SSVerif.AcmodBuf.step d.fix d.win noSkip d.s (.processFull (ns != "0") rs)))
     | none => (d, "bad-op")
   | ["q"] => emit d (SSVerif.AcmodBuf.step d.fix d.win noSkip d.s .query)
   | ["align", r, n] =>
     match n.toNat? with
     | some n => emit d (SSVerif.AcmodBuf.step d.fix d.win noSkip d.s (.align (if r != "0" then some n else none)))
     | none => (d, "bad-op")
-  | ["end", t] => emit d (decEnd d.fix d.win noSkip d.s (t != "0"))
+  | ["end", t] =>
+    withRv (showEndRv (SSVerif.DecRet.decEndRv d.fix d.win noSkip d.s (t != "0"))) (emit d (decEnd d.fix d.win noSkip d.s (t != "0")))
   | _ => (d, "bad-op")
 
 def main : IO Unit :=
